@@ -34,6 +34,8 @@ def stages(tier, seed, bins):
             c["td"] = min(td, 3)
         if kind == "flat":
             c["q"] = c["td"] if rnd.random() < 0.8 else max(1, c["td"] - 1)
+        if rnd.random() < 0.25 and N >= 10:
+            c["dupcopies"] = rnd.choice([2, 3])  # exact repeats: a landmark and a non-landmark may coincide (distance exactly 0)
         cases.append(c)
     for i in range(600 if thorough else 50):
         m = rnd.choice(["lmds", "lisomap"])
